@@ -28,6 +28,7 @@ INFO = {
 }
 
 MANIFEST = {
+    "technique": 'bounded symbolic execution of both parsers built from multi-file vs. hand-flattened grammars on one symbolic input (CrossHair engine + z3); symbol key sets compared natively',
     "level_text": "Bounded symbolic execution of both parsers built from multi-file grammars against parsers built from the "
     "hand-flattened grammar on the same symbolic input; path-exhaustive for len(w) <= N per layout; symbol key sets "
     "compared natively.",
